@@ -4,7 +4,7 @@
  * -DHAVE_STRNCASECMP ...), so mem_find* / mem_chr* / mem_cmpi* are the thin wrappers over libc's memmem / memchr /
  * memrchr / strncasecmp that the shipped library uses; under CBMC these four are the man-page-contract bodies of
  * /verif/lib/libc_models.h (memchr, memrchr, memmem) and CBMC's built-in strncasecmp; natively the real glibc.
- * Added here: strnlen (no CBMC model).
+ * (strnlen likewise comes from libc_models.h.)
  *
  * -DLCB_FALLBACK (build variant): HAVE_MEMMEM / HAVE_MEMRCHR / HAVE_STRNCASECMP are undefined again, so liblcb's OWN
  * fallback memmem()/memrchr() (include/al/os.h) and the hand-written case-folding loop of mem_cmpi()
@@ -17,14 +17,6 @@
 #include <stdint.h>
 #include <string.h>
 #include <strings.h>
-
-#ifndef REPLAY
-size_t strnlen(const char *s, size_t n) {
-	size_t i = 0;
-	while (i < n && s[i] != 0) i++;
-	return (i);
-}
-#endif
 
 /* memcpy as every real libc implements it for identical pointers (dst == src is harmless); CBMC's model and the
  * letter of the C standard call dst == src an overlap.  Only used where stated (C15 RADIUS in-place password coding). */
